@@ -23,8 +23,8 @@ Definition frag_c (e : rcexpr) : bool :=
 Definition cons_tasks (e : rcexpr) : list tinfo :=
   match e with
   | CStartAt t _ | CStartAfter t _ _ | CEndAt t _ | CEndBefore t _ _ | CForceSched t _ => [t]
-  | CPrecedence a b _ _ | CStartSynced a b | CEndSynced a b | CDependency a b => [a; b]
-  | CForceN ts _ _ => ts
+  | CPrecedence a b _ _ | CStartSynced a b | CEndSynced a b | CDependency a b | CDontOverlap a b => [a; b]
+  | CForceN ts _ _ | CContiguous ts | CUGroup ts _ _ | COGroup ts _ _ _ | CScheduleN ts _ _ _ => ts
   | _ => []
   end.
 Record fragment (st : pstate) : Prop := {
